@@ -257,22 +257,11 @@ func c03Handover(e *Env) {
 		if f == nil {
 			continue
 		}
-		// the channel
-		var ch *ssa.MakeChan
-		core.Instrs(f, func(in ssa.Instruction) {
-			if mc, ok := in.(*ssa.MakeChan); ok {
-				ch = mc
-			}
-		})
-		if ch == nil {
-			e.R.Fail(rule, q+":response-channel", e.fpos(f), "no response channel")
-			continue
-		}
-		k, isC := core.ConstInt(ch.Size)
-		e.R.Check(isC && k >= 1, rule, q+":channel-buffered", e.pos(ch), fmt.Sprintf("response channel has constant capacity %d ≥ 1 (the sender never blocks, one response is kept)", k), "the response channel is unbuffered or of unknown capacity: the receive path could block or drop the response")
-		// the continuation: closure registered with LoadOrStore
+		// the continuation: closure registered with LoadOrStore on the token table
 		var cont *ssa.Function
-		for _, c := range core.Calls(f, func(nm string, ci ssa.CallInstruction) bool { return nm == "pkg/sync.Map.LoadOrStore" }) {
+		for _, c := range core.Calls(f, func(nm string, ci ssa.CallInstruction) bool {
+			return nm == "pkg/sync.Map.LoadOrStore" && strings.HasSuffix(tableOf(ci), ".tokenHandlerContainer")
+		}) {
 			cont = core.FuncArgClosure(core.Arg(c, 2))
 		}
 		if cont == nil || len(cont.Params) != 2 {
@@ -286,6 +275,21 @@ func c03Handover(e *Env) {
 				sel = s
 			}
 		})
+		// the channel: what the continuation sends the message on
+		var ch *ssa.MakeChan
+		if sel != nil {
+			for _, st := range sel.States {
+				if st.Dir == types.SendOnly && core.Resolve(st.Send) == ssa.Value(msg) {
+					ch, _ = core.Resolve(st.Chan).(*ssa.MakeChan)
+				}
+			}
+		}
+		if ch == nil {
+			e.R.Fail(rule, q+":response-channel", e.fpos(f), "no response channel")
+			continue
+		}
+		k, isC := core.ConstInt(ch.Size)
+		e.R.Check(isC && k >= 1, rule, q+":channel-buffered", e.pos(ch), fmt.Sprintf("response channel has constant capacity %d ≥ 1 (the sender never blocks, one response is kept)", k), "the response channel is unbuffered or of unknown capacity: the receive path could block or drop the response")
 		hij := core.CallsNamed(cont, "message/pool.Message.Hijack")
 		okSend := sel != nil && !sel.Blocking
 		sendsMsg := false
